@@ -17,6 +17,8 @@ ASSUMPTIONS = [
     "character-level parsing of the item list (nom) is outside the claim",
 ]
 W = 128
+ALPHABET = (-1, 0, 1, 2, 5)
+NCHUNK = 16
 
 
 def jobs(tier, seed):
@@ -27,7 +29,8 @@ def jobs(tier, seed):
             if r == 0 and a <= 0:
                 continue
             js.append(f"r{r}a{a}")
-    return js + ['diff']
+    # the property's own bound (5 root items, 3 additions, numbers from {-1,0,1,2,5}) in 16 slices of the 256 patterns
+    return js + [f'p5a3.{k}' for k in range(NCHUNK)] + ['diff']
 
 
 def ref_numbers(rexp, aexp):
@@ -155,17 +158,28 @@ def run_job(prog, job, tier, seed):
     chk = Checker(prog, job)
     if job == 'diff':
         return run_diff(prog, chk, tier, seed)
+    alphabet = job[0] == 'p'          # the property's own bound: numbers from {-1,0,1,2,5}
+    chunk = None
+    if '.' in job:                    # "p5a3.k": k-th of NCHUNK slices of the explicit / identifier-only patterns
+        job, k = job.split('.')
+        chunk = int(k)
     r = int(job[1:job.index('a')])
     a = int(job[job.index('a') + 1:])
+    pat_no = -1
     K = Kernel(prog)
     ir = None
     from mirsym.refsem import IR
     for rmask in itertools.product([False, True], repeat=r):
         for amask in itertools.product([False, True], repeat=max(a, 0)):
+            pat_no += 1
+            if chunk is not None and pat_no % NCHUNK != chunk:
+                continue
             rexp = [z3.BitVec(f"r{i}", W) if m else None for i, m in enumerate(rmask)]
             aexp = [z3.BitVec(f"a{i}", W) if m else None for i, m in enumerate(amask)]
             root, adds = ref_numbers(rexp, aexp)
             valid = validity(rexp, aexp, root, adds)
+            if alphabet:
+                valid = valid + [z3.Or([e == z3.BitVecVal(v, W) for v in ALPHABET]) for e in rexp + aexp if e is not None]
             marker = a >= 0
 
             def run(ex):
@@ -232,6 +246,8 @@ def run_job(prog, job, tier, seed):
                 chk.witness('addition numbered after explicit addition', a > 1)
             chk.sample({'shape': role, 'paths': len(rs)})
     chk.res.bounds = {'root_items': r, 'additions': a, 'numbers': 'all i128 with |n| < 2^126'}
+    if alphabet:
+        chk.res.bounds = {'alphabet_jobs': f'root items <= {r}, additions <= {a}, numbers from {list(ALPHABET)} (the bound of the property statement)'}
     return chk.res
 
 
